@@ -262,6 +262,98 @@ pub fn run(args: &Args) -> serde_json::Value {
                 replica_coq(&sub.specs[1], sub.betas[1], &before[1]), t));
         }
     }
+    // ---- ladders of GENERIC samplers (same interactions, different beta): the exchange rule is
+    // (beta_a/beta_b)^(n_b - n_a); replayed with the container's own uniforms (model-independent)
+    let n_glad = if args.thorough { 400 } else { 40 };
+    let mut n_gsteps = 0usize;
+    let mut n_gswaps = 0u64;
+    for li in 0..n_glad {
+        let spec = random_qmc(&mut rng);
+        let nrep = 2 + rng.below(4) as usize;
+        let betas: Vec<f64> = (0..nrep).map(|i| [0.25, 0.5, 1.0, 2.0][(i + rng.below(2) as usize) % 4]).collect();
+        let mut tc: TemperingContainer<TapeRng, GQ> = TemperingContainer::new(TapeRng::new(rng.next()));
+        let mut ok = true;
+        for b in betas.iter() {
+            let mut sp = spec.clone();
+            sp.state = (0..sp.nvars).map(|_| rng.chance(1, 2)).collect();
+            match sp.build(TapeRng::new(rng.next())) {
+                Some(q) => ok &= tc.add_qmc_stepper(q, *b).is_ok(),
+                None => ok = false,
+            }
+        }
+        if !ok {
+            oracle_failures.push(json!({"what": "a ladder of generic samplers with identical interactions was rejected", "generic_ladder": li}));
+            continue;
+        }
+        let par = li % 3 == 2;
+        for _ in 0..(2 + rng.below(3)) {
+            let rts = catch_unwind(AssertUnwindSafe(|| tc.timesteps(1 + rng.below(4) as usize)));
+            if rts.is_err() {
+                oracle_failures.push(json!({"prop": "C06", "what": "a generic replica's timestep panicked in a tempering run", "generic_ladder": li}));
+                break;
+            }
+            let before: Vec<(Slots, Vec<bool>, usize)> = tc.graph_ref().iter().map(|(g, _)| snapshot_qmc(g)).collect();
+            let offs: Vec<f64> = tc.graph_ref().iter().map(|(g, _)| g.get_offset()).collect();
+            let swaps0 = tc.get_total_swaps();
+            tc.rng_mut().take_log();
+            let r = catch_unwind(AssertUnwindSafe(|| if par { tc.parallel_tempering_step() } else { tc.tempering_step() }));
+            n_gsteps += 1;
+            let ctx = json!({"generic_ladder": li, "parallel": par, "betas": betas, "bonds": spec.bonds.iter().map(|b| json!([b.kind, b.mat, b.vars])).collect::<Vec<_>>(),
+                "n_before": before.iter().map(|s| s.0.iter().flatten().count()).collect::<Vec<_>>()});
+            if r.is_err() {
+                oracle_failures.push(json!({"what": "tempering_step of generic samplers panicked", "context": ctx}));
+                break;
+            }
+            let words = tc.rng_mut().take_log();
+            let after: Vec<(Slots, Vec<bool>, usize)> = tc.graph_ref().iter().map(|(g, _)| snapshot_qmc(g)).collect();
+            let dswaps = tc.get_total_swaps() - swaps0;
+            n_gswaps += dswaps;
+            let maxc = before.iter().map(|s| s.2).max().unwrap();
+            if after.iter().any(|s| s.2 != maxc) {
+                oracle_failures.push(json!({"what": "generic replicas do not share the maximum cutoff after the step", "context": ctx}));
+            }
+            for (i, (g, b)) in tc.graph_ref().iter().enumerate() {
+                if *b != betas[i] || g.get_bonds().len() != spec.bonds.len() || (g.get_offset() - offs[i]).abs() > 1e-12 {
+                    oracle_failures.push(json!({"what": "a generic ladder position lost its interactions / beta / offset", "context": ctx, "position": i}));
+                }
+                let (sl, st, _) = &after[i];
+                if !naive_wf(st, sl) {
+                    oracle_failures.push(json!({"prop": "C06,C10", "what": "world line inconsistent after a generic tempering step", "context": ctx, "position": i}));
+                }
+            }
+            let w64 = |w: &Word| match w { Word::W64(v) => *v, Word::W32(v) => (*v as u64) << 32 };
+            let key = |s: &(Slots, Vec<bool>, usize)| format!("{:?}{:?}", s.0.iter().flatten().collect::<Vec<_>>(), s.1);
+            let mut cur: Vec<String> = before.iter().map(key).collect();
+            let mut ns: Vec<i32> = before.iter().map(|s| s.0.iter().flatten().count() as i32).collect();
+            let a_first = !words.is_empty() && w64(&words[0]) < (1u64 << 63);
+            let pa: Vec<(usize, usize)> = (0..nrep / 2).map(|k| (2 * k, 2 * k + 1)).collect();
+            let pb: Vec<(usize, usize)> = (0..(nrep - 1) / 2).map(|k| (2 * k + 1, 2 * k + 2)).collect();
+            let seq: Vec<(usize, usize)> = if a_first { pa.iter().chain(pb.iter()).cloned().collect() } else { pb.iter().chain(pa.iter()).cloned().collect() };
+            if words.len() == 1 + seq.len() {
+                let mut undecided = false;
+                let mut expect = 0u64;
+                for (k, (i, j)) in seq.iter().enumerate() {
+                    let u = (w64(&words[1 + k]) >> 12) as f64 / 4503599627370496.0;
+                    let ratio = (betas[*i] / betas[*j]).powi(ns[*j] - ns[*i]);
+                    if (ratio - u).abs() < 1e-7 {
+                        undecided = true;
+                        break;
+                    }
+                    if ratio > u {
+                        cur.swap(*i, *j);
+                        ns.swap(*i, *j);
+                        expect += 1;
+                    }
+                }
+                if !undecided && (expect != dswaps || cur != after.iter().map(key).collect::<Vec<_>>()) {
+                    oracle_failures.push(json!({"what": "generic samplers: exchange decisions differ from min(1, (beta_a/beta_b)^(n_b-n_a)) applied with the same uniforms",
+                        "context": ctx, "expected_exchanges": expect, "counted_exchanges": dswaps}));
+                }
+            } else {
+                oracle_failures.push(json!({"what": "generic tempering step consumed an unexpected number of container RNG words", "context": ctx, "words": words.len()}));
+            }
+        }
+    }
     for f in oracle_failures.iter_mut() {
         if f.get("prop").is_none() {
             f["prop"] = json!("C10");
@@ -271,7 +363,7 @@ pub fn run(args: &Args) -> serde_json::Value {
     oracle_failures.truncate(60);
     let files = crate::write_shards(&args.out, "C10", "C10", &coq, if args.thorough { 300 } else { 40 });
     json!({"files": files, "evaluations": coq.len(), "distinct_nontrivial": distinct.len() + n_probes, "tempering_steps": n_steps,
-        "accepted_exchanges": n_swaps, "threshold_probes": n_probes, "steps_with_unequal_cutoffs_before": n_unequal_cutoffs,
+        "accepted_exchanges": n_swaps, "generic_sampler_tempering_steps": n_gsteps, "generic_sampler_accepted_exchanges": n_gswaps, "threshold_probes": n_probes, "steps_with_unequal_cutoffs_before": n_unequal_cutoffs,
         "ladder_sizes": hist_rep, "oracle_failures": oracle_failures, "samples": samples,
-        "rule": "ladders of 2..8 Ising replicas on a shared random graph (beta ladders, Hamiltonian ladders |J|, Gamma, |h| scaled, both), unequal initial cutoffs, some with heat bath; after random numbers of time steps one serial or rayon tempering step is replayed on the container's raw words; on 2-replica ladders the uniform at which the exchange flips is bisected to the exact word"})
+        "rule": "ladders of 2..8 Ising replicas on a shared random graph (beta ladders, Hamiltonian ladders |J|, Gamma, |h| scaled, both), unequal initial cutoffs, some with heat bath; after random numbers of time steps one serial or rayon tempering step is replayed on the container's raw words; on 2-replica ladders the uniform at which the exchange flips is bisected to the exact word; beta ladders of 2..5 GENERIC samplers (identical interactions) are stepped and their exchange decisions replayed with the same uniforms (oracle only)"})
 }
